@@ -1029,6 +1029,16 @@ class SymInt(SymNum):
     __slots__ = ()
     __vc_types__ = (int,)
 
+    def __index__(self):
+        """CPython asks for a machine index (list / tuple subscript with a symbolic int).  When the path condition
+        confines the value to a few small non-negative values the path is SPLIT on them (an exact case analysis,
+        like any other branch); otherwise the value would leak into native code: Unsupported."""
+        c = ctx()
+        for v in range(0, 6):
+            if c.branch(self.t == v):
+                return v
+        raise Unsupported("symbolic SymInt leaked into native code (__index__): not confined to 0..5 on this path")
+
     def __floor__(self):
         return self
 
